@@ -35,6 +35,8 @@ def plan(tier, seed):
             if align == "dpd" and "pip_pip" in name:
                 continue
             cases.append({"kind": "model", "fixture": name, "align": align, "cost": 3.0})
+    for k in range(4 if tier == "quick" else 40):
+        cases.append({"kind": "twins", "k": k, "cost": 0.5})
     return cases
 
 
@@ -244,6 +246,48 @@ def build_generated(case, ctx, rng):
     return inner, shapes
 
 
+def _run_twins(case, rec, ctx, rng):
+    """Different sums evaluated one after the other in one process - in particular look-alike sums whose *Python hashes*
+    coincide (CPython: hash(-1) == hash(-2), so trees differing only by Integer(-1) / Integer(-2) collide for every seed).
+    Each must evaluate to its own explicit sum, whatever was evaluated before."""
+    import sympy as sp
+    PoolSum = ctx["PoolSum"]
+    a, b, c = ctx["free"]
+    i, j = sp.symbols("i j")
+    f = sp.Function("f")
+    k = case["k"]
+    lo = [sp.Integer(-1), sp.Integer(-2)]
+    if k % 2:
+        lo.reverse()
+    pairs = []
+    for v in lo:
+        variants = [PoolSum(a ** i + b * i, (i, (v, 1))),                                   # pool value
+                    PoolSum(a * i + v * b, (i, (0, 1, 1))),                                   # coefficient
+                    PoolSum(f(i, j) + c, (i, (v, 1)), (j, (0, 2))),                           # two indices, undefined function
+                    PoolSum(a ** i * PoolSum(b * j + i, (j, (v, 0))), (i, (1, 2))),           # nested: inner pool
+                    PoolSum((a + i) ** v + sp.Rational(v, 3) * c, (i, (1, 2, 3)))]            # exponent / rational numerator
+        pairs.append(variants)
+    env = {s_: sp.Rational(int(rng.integers(2, 40)), int(rng.integers(7, 13))) for s_ in (a, b, c)}
+    feats = {"family": "twins", "n_idx": 1, "depth": 1, "shadow": False}
+    rec.case(("twins", k % 2), True, law="hash_twins", n_indices=1, depth=1, shadow=False)
+    for which in range(len(pairs[0])):
+        for first_second, P in enumerate((pairs[0][which], pairs[1][which])):
+            if any(isinstance(n_, sp.core.function.AppliedUndef) for n_ in sp.preorder_traversal(P)):
+                # undefined function: compare structurally with the explicit sum
+                expl = sp.Add(*[P.args[0].xreplace(dict(zip([s_ for s_, _ in _indices_of(P)], combo)))
+                                for combo in __import__("itertools").product(*[v_ for _, v_ in _indices_of(P)])])
+                got = P.doit()
+                ok = sp.expand(got - expl) == 0
+                what = f"doit() = {got}, explicit sum = {expl}"
+            else:
+                ref = ref_value(P, env, PoolSum)
+                got = P.doit()
+                ok = _close(_num(got, env), ref) and _close(ref_value(sp.sympify(P.evaluate()), env, PoolSum), ref)
+                what = f"doit() = {_num(got, env)} but explicit sum = {ref}"
+            rec.check(bool(ok), "doit_value", f"{'second' if first_second else 'first'} of two look-alike sums ({P}): {what}", {"poolsum": str(P)},
+                      {**feats, "evaluated_after_hash_twin": bool(first_second)})
+
+
 def run_case(case, rec, ctx):
     import sympy as sp
     PoolSum = ctx["PoolSum"]
@@ -251,6 +295,8 @@ def run_case(case, rec, ctx):
     ctx["case_rng"] = rng
     if case["kind"] == "model":
         return _run_model(case, rec, ctx, rng)
+    if case["kind"] == "twins":
+        return _run_twins(case, rec, ctx, rng)
     ctx["judge_calls"] = False
     P, shapes = build_generated(case, ctx, rng)
     a, b, c = ctx["free"]
